@@ -375,6 +375,7 @@ impl<Writer> MuxerBuilder<Writer> {
         // present.  Future releases may relax this to allow audio‑only
         // streams.
         let (codec, width, height, framerate) = self.video.ok_or(MuxerError::MissingVideoConfig)?;
+        check_dimensions(width, height)?;
         let video_track = VideoTrackConfig {
             codec,
             width,
@@ -436,6 +437,7 @@ impl<Writer> MuxerBuilder<Writer> {
         // Fragmented MP4 requires video configuration
         let (codec, width, height, _framerate) =
             self.video.ok_or(MuxerError::MissingVideoConfig)?;
+        check_dimensions(width, height)?;
 
         // Extract codec-specific configuration
         let (sps, pps, vps, av1_sequence_header, vp9_config) = match codec {
@@ -507,6 +509,18 @@ impl<Writer> MuxerBuilder<Writer> {
 
         Ok(FragmentedMuxer::new(config))
     }
+}
+
+/// The visual sample entry stores width and height as 16-bit values: report larger
+/// dimensions at build time instead of truncating them (or panicking) when finishing.
+fn check_dimensions(width: u32, height: u32) -> Result<(), MuxerError> {
+    if width > u16::MAX as u32 || height > u16::MAX as u32 {
+        return Err(MuxerError::Io(std::io::Error::new(
+            std::io::ErrorKind::InvalidInput,
+            "video width and height must not exceed 65535 (16-bit MP4 sample entry fields)",
+        )));
+    }
+    Ok(())
 }
 
 /// Configuration for a video track.
